@@ -13,6 +13,7 @@ import (
 	"fmt"
 	"net/http"
 	"net/url"
+	"runtime"
 	"testing"
 	"testing/synctest"
 
@@ -94,6 +95,105 @@ func manyInFlight(t *testing.T, rep *ev.Report, shard, of int) {
 			if res.Hang != "" {
 				rep.Violate(map[string]any{"kind": "hang", "case_kind": "many-in-flight", "proto": proto}, map[string]any{"desc": desc}, "%s: %s", desc, res.Hang)
 			}
+		}
+	}
+}
+
+// volume: one connection carries far more bytes than any per-connection buffer should ever hold (64 MiB of uploads on
+// one keep-alive HTTP/1.1 connection, and on one HTTP/2 connection), every exchange complete and correct. While the
+// connection is still open the proxy's live heap must not have grown with the volume: memory that grows with what a
+// client sends on one connection ends in the process being killed, which takes every other connection down with it.
+func volume(t *testing.T, rep *ev.Report, shard, of int) {
+	const piece = 48 << 10
+	total := 64 << 20
+	if ev.Thorough() {
+		total = 256 << 20
+	}
+	for i, proto := range []string{"h1", "h2"} {
+		if (i+5)%of != shard {
+			continue
+		}
+		proto := proto
+		desc := fmt.Sprintf("volume: %d MiB uploaded in %d KiB requests on one %s connection", total>>20, piece>>10, proto)
+		res := bubble.Run(t, func() {
+			st := bubble.NewStack(baseOpts())
+			defer st.Shutdown()
+			st.Backend.Respond = func(r *bubble.RecReq) *bubble.Resp {
+				return &bubble.Resp{Status: 200, Body: []byte(fmt.Sprint(len(r.Body)))}
+			}
+			h := faults.HelloH1
+			if proto == "h2" {
+				h = faults.HelloH2
+			}
+			cl := st.Connect("bulk", nil, h)
+			synctest.Wait()
+			if proto == "h2" {
+				cl.StartH2()
+				cl.Write(h2wire.WindowUpdate(0, 1<<30))
+				synctest.Wait()
+			}
+			body := make([]byte, piece)
+			for i := range body {
+				body[i] = byte(i * 7)
+			}
+			col := bubble.NewH2Collector()
+			one := func(n int) bool {
+				if proto == "h1" {
+					cl.SendH1(bubble.Req{Method: "POST", Path: "/bulk", Host: "localhost", Body: body})
+					synctest.Wait()
+					rs := cl.TakeH1Responses("POST")
+					return len(rs) == 1 && rs[0].Status == 200 && string(rs[0].Body) == fmt.Sprint(piece)
+				}
+				id := uint32(1 + 2*n)
+				cl.SendH2(id, bubble.Req{Method: "POST", Path: "/bulk", Host: "localhost", Body: body})
+				synctest.Wait()
+				col.Add(cl.Dec, cl.TakeFrames())
+				r := col.Resps[id]
+				ok := r != nil && r.Ended && r.Status == "200" && string(r.Body) == fmt.Sprint(piece)
+				delete(col.Resps, id)
+				return ok
+			}
+			live := func() uint64 {
+				st.Backend.Forget()
+				runtime.GC()
+				runtime.GC()
+				var m runtime.MemStats
+				runtime.ReadMemStats(&m)
+				return m.HeapAlloc
+			}
+			n := 0
+			for ; n < 8; n++ { // warm-up: buffers of their working size
+				if !one(n) {
+					rep.HarnessError("%s: warm-up exchange %d failed", desc, n)
+					return
+				}
+			}
+			before := live()
+			for sent := 0; sent < total; sent += piece {
+				if !one(n) {
+					rep.Violate(map[string]any{"kind": "exchange-failed-under-volume", "proto": proto}, map[string]any{"desc": desc, "exchange": n},
+						"%s: exchange %d did not complete correctly", desc, n)
+					return
+				}
+				n++
+			}
+			after := live()
+			rep.Add("evaluations", 1)
+			rep.Add("volume_cases", 1)
+			rep.Note("distinct_nontrivial", desc)
+			growth := int64(after) - int64(before)
+			rep.SetMax("volume_live_heap_growth_kib_"+proto, growth>>10)
+			if growth > 16<<20 {
+				rep.Violate(map[string]any{"kind": "memory-grows-with-connection-volume", "proto": proto}, map[string]any{"desc": desc, "live_heap_before": before, "live_heap_after": after},
+					"%s: with the connection still open the live heap grew by %d MiB (from %d to %d KiB); allowed 16 MiB", desc, growth>>20, before>>10, after>>10)
+			}
+			cl.Close()
+		})
+		if res.Panic != nil {
+			rep.HarnessError("%s: panic %v\n%s", desc, res.Panic, res.Stack)
+		}
+		if res.Hang != "" {
+			rep.Violate(map[string]any{"kind": "hang", "part": "volume"}, map[string]any{"hang": res.Hang}, "%s: %s", desc, res.Hang)
 		}
 	}
 }
